@@ -1,6 +1,6 @@
 //! Event-level traces of find's walk loop (spec/trace/T_WalkLoop.tla): the library is built with the verification
 //! hook, which logs every entry handed to the expression, every walk error and every skip_current_dir().
-//! Input: as C03 (tree, one starting point, cfg with prune paths, -sorted); Observation: {events:[..], exit}
+//! Input: as C03 (tree, starting points, cfg with prune paths, -sorted); Observation: {events:[..], exit}
 use super::pwalk::{walk_args, PWalk};
 use super::Prop;
 use crate::findrun::*;
@@ -51,21 +51,19 @@ impl Prop for PWLoop {
         // trees, follow modes, depth ranges, prune sets and mount points as for C03; one starting point, sorted
         let mut w = PWalk::new("C03");
         let mut v = w.gen(rng, idx * 4 + 2, tier);
-        let first = arr(&v["roots"]).iter().find(|r| r["node"].as_u64().unwrap_or(0) > 0).cloned();
-        match first {
-            Some(r) => v["roots"] = json!([r]),
-            None => {
-                v["roots"] = json!([{"spell": v["tree"][0]["name"].clone(), "node": 1}]);
-                if json_to_string(&v["tree"][0]["name"]).starts_with('-') {
-                    v["roots"][0]["spell"] = str_to_json(&format!("./{}", json_to_string(&v["tree"][0]["name"])));
-                }
-            }
-        }
+        // several starting points, also one that does not exist; prune paths are per starting point spelling
         v["cfg"]["sorted"] = json!(true);
-        // prune paths of other starting points mean nothing now
-        let sp = json_to_string(&v["roots"][0]["spell"]);
-        let keep: Vec<Value> = arr(&v["cfg"]["prune"]).into_iter().filter(|p| json_to_string(p).starts_with(&sp)).collect();
-        v["cfg"]["prune"] = json!(keep);
+        if v.get("files0").is_some() {
+            v.as_object_mut().unwrap().remove("files0");
+            v.as_object_mut().unwrap().remove("final_nul");
+        }
+        let roots: Vec<Value> = arr(&v["roots"]).into_iter().filter(|r| !arr(&r["spell"]).is_empty()).collect();
+        v["roots"] = json!(if roots.is_empty() { vec![json!({"spell": str_to_json("missing"), "node": 0})] } else { roots });
+        if idx % 5 == 2 {
+            let mut r = arr(&v["roots"]);
+            r.insert(rng.below(r.len() + 1), json!({"spell": str_to_json("nonexistent"), "node": 0}));
+            v["roots"] = json!(r);
+        }
         v.as_object_mut().unwrap().remove("byino");
         v
     }
